@@ -275,6 +275,8 @@ def units(tier):
         for n in range(2, (4 if tier == "quick" else 8) + 1):
             us.append(("unit_compute_anysize", (m, n, "default")))
         us.append(("unit_compute_anysize", (m, 3, "custom")))
+    if tier == "quick":
+        us += [("unit_compute", (m, (1,) * 6, "default")) for m in extract.MODELS] + [("unit_predict", (m, (1,) * 6)) for m in extract.MODELS]
     return us
 
 
